@@ -12,6 +12,7 @@ import (
 
 	"pgregory.net/rapid"
 
+	"verifharness/simnet"
 	"verifharness/world"
 )
 
@@ -220,7 +221,7 @@ func newWorld(g *G, cfg *MachineCfg) (*world.World, error) {
 // runMachine is the rapid property shared by all history-quantified checks.
 func runMachine(t *testing.T, cfg *MachineCfg) {
 	rapid.Check(t, func(rt *rapid.T) {
-		g := &G{T: rt, Bias: cfg.Bias}
+		g := &G{T: rt, Bias: cfg.Bias, W0Accts: simnet.DefaultAccounts(world.NumAccounts)}
 		w, err := newWorld(g, cfg)
 		if err != nil {
 			rt.Fatalf("world: %v", err)
@@ -251,8 +252,8 @@ func runMachine(t *testing.T, cfg *MachineCfg) {
 }
 
 // replayHistory re-executes a stored history without any generator.
-func replayHistory(cfg *MachineCfg, steps []world.Step) (*world.World, error) {
-	opt := world.Options{Prop: cfg.Prop, Also: alsoSet(cfg.Also), Open: OpenFindings(), Twin: cfg.Twin, Perturb: cfg.Perturb}
+func replayHistory(cfg *MachineCfg, steps []world.Step, aolGenesis json.RawMessage) (*world.World, error) {
+	opt := world.Options{Prop: cfg.Prop, Also: alsoSet(cfg.Also), Open: OpenFindings(), Twin: cfg.Twin, Perturb: cfg.Perturb, AolGenesis: aolGenesis}
 	w, err := world.New(opt)
 	if err != nil {
 		return nil, err
